@@ -29,19 +29,28 @@ static void sI_z4(const int *d, vcase *c)
 { c->n = c->m = 4; c->pat = (uint64_t)d[0]; c->vals = (int[]){ 4, 5, 7 }[d[1]]; set_opts_digits(c, 1, d[2], 0, 0, 0, 0); c->trans = 0; c->colperm = CP_I[d[3]]; set_tune(c, (int[]){ 3, 0, 2 }[d[4]]); c->type = d[5]; c->equil = 0; c->nrhs = 1; c->rhs = 1; c->u = 0.1; c->permid = -1; c->stor = 0; }
 static void sI_z6(const int *d, vcase *c)
 { c->n = c->m = 6; c->pat = dev1_pattern(6, base_pattern(6, d[0]), d[1]); c->vals = (int[]){ 4, 5, 7 }[d[2]]; set_opts_digits(c, 1, d[3], 0, 0, d[6], 0); c->trans = 0; c->colperm = CP_I[d[4]]; set_tune(c, (int[]){ 3, 0, 2 }[d[5]]); c->type = d[7]; c->equil = 0; c->nrhs = 1; c->rhs = 1; c->u = 0.1; c->permid = -1; c->stor = 0; }
+/* SymmetricMode: the etree is heap-ordered but not postordered (ilu_heap_relax_snode); patterns whose natural order is not a postorder included */
+static void sI_s(const int *d, vcase *c)
+{ static const int B[] = { 0, 1, 2, 3, 4, 5, 6, 7, 8, 11, 12 }; c->n = c->m = 6; c->pat = dev1_pattern(6, base_pattern(6, B[d[0]]), d[1]); c->vals = (int[]){ 1, 4 }[d[2]]; set_opts_digits(c, d[3], 0, 0, 0, 0, 0); c->trans = 0; c->colperm = CP_I[d[4]];
+  set_tune(c, (int[]){ 0, 10, 4, 3 }[d[5]]); c->type = d[6]; c->equil = 1; c->nrhs = 1; c->rhs = 1; c->u = 0.1; c->permid = -1; c->stor = 0; c->sym = 1; }
+#define FAM_SYM(nd) { "SymmetricMode: 11 bases of order 6 (incl. interleaved chains) x deviations x vals{V1,V4} x {NODROP,BASIC} x {NATURAL,COLAMD,MMD_AT+A} x tune{default,(2,4,4..),(2,2,3..),(2,1,2..)} x type4", 7, { 11, nd, 2, 2, 3, 4, 4 }, sI_s }
+static void sI_s16(const int *d, vcase *c)   /* orders 12 and 16, generated patterns: etrees with several branches, subtrees that are not contiguous in the original numbering */
+{ c->n = c->m = d[1] ? 16 : 12; if (d[0] < 8) { c->gen = 1; c->pat = (uint64_t)(int[]){ 9, 10, 4, 7, 1, 2, 11, 12 }[d[0]]; } else { c->gen = 2; c->pat = (uint64_t)(800 + d[0]); }
+  c->vals = 1; set_opts_digits(c, d[2], 0, 0, 0, 0, 0); c->trans = 0; c->colperm = CP_I[d[3]]; set_tune(c, (int[]){ 0, 10, 14 }[d[4]]); c->type = d[5]; c->equil = 1; c->nrhs = 1; c->rhs = 1; c->u = 0.1; c->permid = -1; c->stor = 0; c->sym = d[6]; }
+#define FAM_S16(np) { "orders 12 and 16: 8 structured + generated patterns x {NODROP,BASIC} x {NATURAL,COLAMD,MMD_AT+A} x tune{default,(2,4,4..),(3,8,2..)} x type4 x SymmetricMode2", 7, { np, 2, 2, 3, 3, 4, 2 }, sI_s16 }
 #define FAM_Z4 { "tiny entries dropped, Equil off: ALL(4) x {V4,V5,V7} x BASIC tol{1e-4,.5} x {NATURAL,COLAMD} x tune{(2,1,2..),default,1-col} x type4", 6, { N_ALL4, 3, 2, 2, 3, 4 }, sI_z4 }
 #define FAM_Z6 { "tiny entries dropped, Equil off: DEV_1(BASE(6)) x {V4,V5,V7} x BASIC tol{1e-4,.5} x {NATURAL,COLAMD} x tune3 x milu{SILU,SMILU_2} x type4", 8, { 9, 37, 3, 2, 2, 3, 2, 4 }, sI_z6 }
 static const family FIQ[] = {
     { "ALL(1..3) x vals{V1,V0,V4,V5} x drop{NODROP,BASIC,BASIC|AREA,BASIC|PROWS} x tol{1e-4,.5} x fill{10,1} x norm{inf,1} x milu{SILU,SMILU_2} x rowperm{none,MC64} x trans{N,T} x colperm{NAT,COLAMD} x tune{default,(2,1,2..)} x type4", 12, { N_ALL123, 4, 4, 2, 2, 2, 2, 2, 2, 2, 2, 4 }, sI_a },
     { "DEV_1(BASE(6)) first 5 deviations x vals2 x drop4 x tol2 x fill2 x norm2 x milu2 x rowperm2 x trans{N,T} x colperm2 x tune2 x type4", 13, { 9, 5, 2, 4, 2, 2, 2, 2, 2, 2, 2, 2, 4 }, sI_b },
     { "modified-ILU cancellation (dropped mass = minus every pivot candidate): {n=4 all patterns with full diagonal, n=5 upper triangular} x vals{13,14} x BASIC tol .5 x norm3 x milu4 x {NATURAL,COLAMD} x tune{1-col,(2,1,2..),default} x type4", 7, { 5120, 2, 3, 4, 2, 3, 4 }, sI_m },
-    FAM_Z4, FAM_Z6,
+    FAM_Z4, FAM_Z6, FAM_SYM(13), FAM_S16(8 + 60),
 };
 static const family FIT[] = {
     { "ALL(1..3) x vals5 x drop7 x tol3 x fill3 x norm3 x milu4 x rowperm2 x trans3 x colperm3 x tune3 x type4", 12, { N_ALL123, 5, 7, 3, 3, 3, 4, 2, 3, 3, 3, 4 }, sI_a },
     { "DEV_1(BASE(6)) first 12 deviations x vals2 x drop7 x tol3 x fill3 x norm3 x milu4 x rowperm2 x trans3 x colperm3 x tune3 x {d,z}", 13, { 9, 12, 2, 7, 3, 3, 3, 4, 2, 3, 3, 3, 2 }, sI_b },
     { "modified-ILU cancellation (dropped mass = minus every pivot candidate): {n=4 all patterns with full diagonal, n=5 upper triangular} x vals{13,14} x BASIC tol .5 x norm3 x milu4 x {NATURAL,COLAMD} x tune{1-col,(2,1,2..),default} x type4", 7, { 5120, 2, 3, 4, 2, 3, 4 }, sI_m },
-    FAM_Z4, FAM_Z6,
+    FAM_Z4, FAM_Z6, FAM_SYM(37), FAM_S16(8 + 600),
 };
 static void sI_bt(const int *d, vcase *c) { int e[13]; memcpy(e, d, sizeof e); e[12] = d[12] ? TZ : TD; sI_b(e, c); }
 #define NF(F) ((int)(sizeof F / sizeof *F))
